@@ -133,23 +133,25 @@ func cmdCheck(args []string) {
 			if fc.Tier == "thorough" && *tier != "thorough" {
 				continue
 			}
-			fn := prog.FindFunc(pp, key)
-			if fn == nil {
+			items, found := prog.Expand(pp, key, fc)
+			if !found {
 				fmt.Printf("STALE-CONTRACT %s %s: function not found in the working tree\n", pp, key)
 				broken++
 				continue
 			}
-			res := prog.VerifyFunc(fn, fc, cf, *tier)
-			results = append(results, res)
-			if res.Unsupported != "" {
-				fmt.Printf("CHECK-ERROR %s: outside the supported subset: %s\n", res.Name, res.Unsupported)
-				broken++
+			for _, it := range items {
+				res := prog.VerifyFunc(it.fn, fc, cf, *tier)
+				results = append(results, res)
+				if res.Unsupported != "" {
+					fmt.Printf("CHECK-ERROR %s: outside the supported subset: %s\n", res.Name, res.Unsupported)
+					broken++
+				}
+				if res.ContractErr != "" {
+					fmt.Printf("STALE-CONTRACT %s: %s\n", res.Name, res.ContractErr)
+					broken++
+				}
+				all = append(all, res.Obls...)
 			}
-			if res.ContractErr != "" {
-				fmt.Printf("STALE-CONTRACT %s: %s\n", res.Name, res.ContractErr)
-				broken++
-			}
-			all = append(all, res.Obls...)
 		}
 	}
 	if prog.lib != nil {
